@@ -20,7 +20,10 @@ def layout_options(draw, require=None, allow=None):
     opts = {}
     for i, n in enumerate(names):
         if bits >> i & 1:
-            if n in LAYOUT_INT:
+            if n == 'wrap_after':
+                # small, medium and large margins alike (a uniform draw from 0..80 rarely lets a whole list fit)
+                opts[n] = draw(st.sampled_from([0, 1, 5, 10, 20, 30, 40, 60, 80, 120, 200]))
+            elif n in LAYOUT_INT:
                 lo, hi = LAYOUT_INT[n]
                 opts[n] = draw(st.integers(lo, hi))
             else:
